@@ -182,6 +182,38 @@ impl Property for C02 {
                 }
             }
         }
+        // word-pattern lattice {0,1,MAX}^3 for dividend and divisor on the 64-bit-word types
+        for (lt, rt) in [(TID_D, TID_D), (TID_A, TID_D), (TID_D, 11u8), (11u8, TID_D), (TID_A, TID_A), (TID_D, 13u8)] {
+            if !sh.mine() {
+                continue;
+            }
+            let pats = |code: usize, n: usize| -> Bits {
+                let mut c = code;
+                let mut b = Vec::with_capacity(192);
+                for _ in 0..3 {
+                    let w = c % 3;
+                    c /= 3;
+                    for k in 0..64 {
+                        b.push(match w { 0 => false, 1 => k == 0, _ => true });
+                    }
+                }
+                b.truncate(n);
+                Bits(b)
+            };
+            for n in [129usize, 192] {
+                for ac in 0..27 {
+                    for bc in 1..27 {
+                        for kind in kinds {
+                            rot += 1;
+                            let c = C02Case { a: Operand::canon(lt, pats(ac, 192)), b: Rhs::V(Operand::canon(rt, pats(bc, n))), kind, form: FORMS[rot % 6] };
+                            if !f(c) {
+                                return;
+                            }
+                        }
+                    }
+                }
+            }
+        }
         // divisor-length sweep (the "long but small divisor" class)
         for lt in FIXED_TIDS {
             for rt in 0..NT {
